@@ -188,6 +188,7 @@ structure State where
   verOf : List (Bytes × Nat) := []          -- m.<hash>            -> version
   hashAt : List (Nat × Bytes) := []         -- m.version.<pad v>   -> hash
   keyList : List (Nat × List Bytes) := []   -- m.versionkl.<pad v> -> keys of that version
+  last : DB := []                            -- ".-mvcc-.l.<key>" -> latest value (MVCCIter only)
 
 def assocSet {α β} [BEq α] (l : List (α × β)) (a : α) (b : β) : List (α × β) :=
   (a, b) :: l.filter (fun e => !(e.1 == a))
@@ -212,7 +213,8 @@ def maxVersion (s : State) : Option Nat :=
 def add (s : State) (ver : Nat) (hash : Bytes) (prev : Option Bytes) (kvs : List (Bytes × Bytes)) :
     State × Res :=
   let doAdd : State × Res :=
-    ({ data := applyAdd s.data ver kvs
+    ({ s with
+       data := applyAdd s.data ver kvs
        verOf := assocSet s.verOf hash ver
        hashAt := assocSet s.hashAt ver hash
        keyList := assocSet s.keyList ver (kvs.map (·.1)) }, .ok)
@@ -242,6 +244,38 @@ def del (s : State) (ver : Nat) (hash : Bytes) : State × Res :=
         ({ s with data := applyDel s.data ver keys
                   verOf := assocDel s.verOf hash
                   hashAt := assocDel s.hashAt ver }, .ok)
+
+/-- `MVCCIter.AddMVCC` followed by writing the returned list: the helper's list, then one "last"
+record per kv. -/
+def iterAdd (s : State) (ver : Nat) (hash : Bytes) (prev : Option Bytes) (kvs : List (Bytes × Bytes)) :
+    State × Res :=
+  match add s ver hash prev kvs with
+  | (s', .ok) => ({ s' with last := kvs.foldl (fun d kv => put d kv.1 kv.2) s'.last }, .ok)
+  | (s', r) => (s', r)
+
+/-- the "last" updates of `MVCCIter.DelMVCC`: for every key of the removed version (only when
+`version > 0`) `GetV(key, version-1)` — not found ⇒ delete the last record, a value ⇒ restore it,
+any other error ⇒ the whole call fails.  `none` = failure with that result. -/
+def iterDelLast (data : DB) (ver : Nat) : List Bytes → DB → Except Res DB
+  | [], last => .ok last
+  | k :: rest, last =>
+    if ver = 0 then iterDelLast data ver rest last else
+    match getV data k (ver - 1) with
+    | .notfound => iterDelLast data ver rest (erase last k)
+    | .val v => iterDelLast data ver rest (put last k v)
+    | r => .error r
+
+/-- `MVCCIter.DelMVCC(hash, ver, strict = true)` followed by writing the returned list. -/
+def iterDel (s : State) (ver : Nat) (hash : Bytes) : State × Res :=
+  match assocGet s.keyList ver with
+  | none => (s, .notfound)
+  | some keys =>
+    match del s ver hash with
+    | (s', .ok) =>
+      (match iterDelLast s.data ver keys s.last with
+       | .ok last' => ({ s' with last := last' }, .ok)
+       | .error r => (s, r))
+    | (_, r) => (s, r)
 
 /-- `StateDB.Get` with MVCC enabled for state hash `hash` (client = nil, height 0): the version
 is looked up by `GetVersion(hash)`; unknown hash ⇒ version stays −1 ⇒ not found. -/
